@@ -13,7 +13,7 @@ import (
 )
 
 func (e *verifEnv) attachBankAndStaking() (*models.Bank, *models.StakingMsgs) {
-	bank := models.NewBank()
+	bank := models.NewBank(e.ms)
 	st := &models.StakingMsgs{Bank: bank}
 	e.k.bankKeeper = bank
 	e.k.stakingMsgServer = st
